@@ -238,6 +238,8 @@ def _random(tier, seed):
         )
         if not spec["sectors"]:
             continue
+        if spec["dtype"] == "complex128" and len(spec["sectors"]) > 1 and i % 4 == 0:
+            spec["mixed_block_dtypes"] = True  # first stored block real, the others complex (as made by real + complex)
         kind = int(rng.integers(0, 3))
         if kind < 2 or nd < 3:
             yield from _emit(spec, _rand_family(rng, nd))
@@ -279,6 +281,7 @@ def _features(d, x, groups, **kw):
         "singlet_last": len(groups[-1]) == 1,
         "nested": bool(d.get("pre")),
         "sparse": d["a"].get("sectors", "all") != "all",
+        "mixed_block_dtypes": bool(d["a"].get("mixed_block_dtypes")),
     }
     f.update(kw)
     return f
